@@ -25,8 +25,7 @@ Definition wf_row (t : default_enc) (terms rules s : Z) : bool :=
   else true.
 
 (* the FromTo segment of a nonterminal: inside the array, on pair boundaries, source states in range and
-   strictly increasing (what the binary search of gotoState relies on); and some state has no transition
-   on the symbol (true for every LR automaton: the accepting state has none) *)
+   strictly increasing (what the binary search of gotoState relies on) *)
 Definition wf_seg (t : default_enc) (x : Z) : bool :=
   let ft := d_from_to t in
   let states := zlength (d_action t) in
@@ -37,10 +36,19 @@ Definition wf_seg (t : default_enc) (x : Z) : bool :=
         (0 <=? zn ft i) && (zn ft i <? states)
         && (if i + 2 <? mx then zn ft i <? zn ft (i + 2) else true)) (zseq ((mx - mn) / 2)).
 
+(* A nonterminal whose uncompressed line is constant gets no packed line and Goto[nt] = -syms, which
+   optimize.go claims "is guaranteed to fall back to the default".  That is only true when the constant is
+   "no transition" (or states <= syms).  So: some state has no transition on the symbol (true for every
+   productive grammar: the accepting state has none), or two states have different targets. *)
 Definition seg_has_gap (t : default_enc) (x : Z) : bool :=
   existsb (fun s => goto_state t s x <? 0) (zseq (zlength (d_action t))).
 
-(* everything but the gap condition (used to show that the gap condition cannot be dropped) *)
+Definition seg_not_constant (t : default_enc) (x : Z) : bool :=
+  existsb (fun s => negb (goto_state t s x =? goto_state t 0 x)) (zseq (zlength (d_action t))).
+
+Definition seg_fallback_ok (t : default_enc) (x : Z) : bool := seg_has_gap t x || seg_not_constant t x.
+
+(* everything but the fallback condition (used to show that it cannot be dropped) *)
 Definition wf_enc_nogap (t : default_enc) (terms rules : Z) : bool :=
   (0 <=? terms)
   && forallb (wf_row t terms rules) (zseq (zlength (d_action t)))
@@ -48,4 +56,4 @@ Definition wf_enc_nogap (t : default_enc) (terms rules : Z) : bool :=
 
 Definition wf_enc (t : default_enc) (terms rules : Z) : bool :=
   wf_enc_nogap t terms rules
-  && forallb (seg_has_gap t) (map (fun i => terms + i) (zseq (zlength (d_goto t) - 1 - terms))).
+  && forallb (seg_fallback_ok t) (map (fun i => terms + i) (zseq (zlength (d_goto t) - 1 - terms))).
